@@ -94,7 +94,7 @@ func (w *c15W) materialise() *model.GraphData {
 }
 
 func genC15(r *Rng, tier string) *c15W {
-	w := &c15W{Run: GenRunCfg(r, []int{1, 1, 10, 50}), LatencyUs: []int{0, 0, 50, 5000}[r.Intn(4)], Writes: r.Chance(10)}
+	w := &c15W{Run: GenRunCfg(r, []int{1, 1, 10, 50}), LatencyUs: []int{0, 0, 50, 5000, 4000000, 60000000}[r.Intn(6)], Writes: r.Chance(10)}
 	nv := 1 + r.Intn(3)
 	labels := []string{"A", "B", "A"} // several tables may share a label
 	prefixes := []string{"P:", "Q:", "R:"}
@@ -272,7 +272,15 @@ func execC15(w *c15W, x *Exec) *Outcome {
 				srv := gripper.NewSimpleTableServer(drivers)
 				cl := &simnet.Client{Server: srv, Stats: netStats}
 				if w.LatencyUs > 0 {
-					cl.Latency = func() time.Duration { return time.Duration(lrng.Intn(w.LatencyUs+1)) * time.Microsecond }
+					cl.Latency = func() time.Duration {
+						if w.LatencyUs >= 1000000 {
+							// a stalled peer: most messages are quick, one in twelve takes seconds (simulated)
+							if lrng.Intn(12) != 0 {
+								return time.Duration(lrng.Intn(200)) * time.Microsecond
+							}
+						}
+						return time.Duration(lrng.Intn(w.LatencyUs+1)) * time.Microsecond
+					}
 				}
 				conf := gripper.GraphConfig{Vertices: map[string]gripper.VertexConfig{}, Edges: map[string]gripper.EdgeConfig{}}
 				for _, t := range w.VTables {
